@@ -104,6 +104,7 @@ class Poly:
         return None
 
     def inv(s):
+        if not s.t: return Poly.atom(('inv', s.key()))          # 1/0: an uninterpreted value (the division raises or yields inf at run time)
         sg = s.single()
         if sg:
             k, (a, b) = sg; n = a * a + b * b
@@ -1035,7 +1036,7 @@ class Evaluator:
             it = _iter_view(s.ev(g.iter, env2, mod, depth))
             if isinstance(it, dict) and all(not isinstance(k_, Opq) for k_ in it): it = [k_.v if isinstance(k_, _HK) else k_ for k_ in it]
             # concrete list/tuple of known length with a single generator: expand
-            if len(e.generators) == 1 and isinstance(it, (list, tuple)) and len(it) <= 24:
+            if len(e.generators) == 1 and isinstance(it, (list, tuple)) and len(it) <= (64 if kind == 'dict' else 24):
                 out = []
                 guarded = []          # (guard, element) per item when some filter is not decided: the items that MAY be present, in order
                 for item in it:
@@ -1060,8 +1061,8 @@ class Evaluator:
                 if out is not None:
                     if kind == 'dict':
                         if all(isinstance(k, (str, int, bool)) or k is None for k, _ in out): return {k: v for k, v in out}
-                        if all(isinstance(k, (str, int, bool)) or k is None or (isinstance(k, Poly) and k.is_const()) for k, _ in out):
-                            return {(k if not isinstance(k, Poly) else _HK(k)): v for k, v in out}
+                        if all(isinstance(k, (str, int, bool)) or k is None or (isinstance(k, Poly) and k.is_const()) or isinstance(k, Ref) for k, _ in out):
+                            return {(k if not isinstance(k, (Poly, Ref)) else _HK(k)): v for k, v in out}          # (a table keyed by classes / functions)
                     else:
                         return (LazyList(out) if kind == 'gen' else out) if kind in ('list', 'gen') else Opq('set', *out)
             depth_id = len(gens)
